@@ -569,7 +569,7 @@ class IfgModel:
         d = self.ifg.data[v].astype(np.float64)
         if np.all(np.isfinite(d)):   # otherwise the validity invariant reports it
             m = float(d.mean())
-            ctx.require(abs(m) <= self._rt() * scale, 'remove_piston:mean', 'mean after remove_piston %.3g (data scale %.3g)' % (m, scale))
+            ctx.within(abs(m), self._rt() * scale, 'remove_piston:mean', 'mean after remove_piston %.3g (data scale %.3g)' % (m, scale))
 
     def op_remove_tiptilt(self, op):
         ctx = self.ctx
@@ -590,7 +590,7 @@ class IfgModel:
         if determined and np.all(np.isfinite(d)):
             c = np.linalg.lstsq(A, d, rcond=None)[0]
             resid = max(abs(float(c[0])) * float(np.abs(A[:, 0]).max()), abs(float(c[1])) * float(np.abs(A[:, 1]).max()))
-            ctx.require(resid <= 10 * self._rt() * scale, 'remove_tiptilt:idempotent',
+            ctx.within(resid, 10 * self._rt() * scale, 'remove_tiptilt:idempotent',
                         're-fit of a*x+b*y after remove_tiptilt finds a=%.3g b=%.3g (%.3g over the aperture, data scale %.3g)' % (c[0], c[1], resid, scale))
 
     def op_remove_power(self, op):
@@ -611,7 +611,7 @@ class IfgModel:
         if determined and np.all(np.isfinite(d)):
             c = np.linalg.lstsq(A, d, rcond=None)[0]
             resid = abs(float(c[0])) * float(rho2.max())
-            ctx.require(resid <= 10 * self._rt() * scale, 'remove_power:idempotent',
+            ctx.within(resid, 10 * self._rt() * scale, 'remove_power:idempotent',
                         're-fit of c*rho^2 + const after remove_power finds c=%.3g (%.3g at the edge, data scale %.3g)' % (c[0], resid, scale))
 
     def op_recenter(self, op):
@@ -814,22 +814,22 @@ class IfgModel:
         tol = 1e-9 * dx
         if nx > 1:
             e = float(np.abs(np.diff(x, axis=1) - dx).max())
-            ctx.require(e <= tol, 'spacing:x:' + last, 'x spacing differs from dx=%g by %.3g after %s (x[0,:3]=%s)' % (dx, e, last, x[0, :3].tolist()))
+            ctx.within(e, tol, 'spacing:x:' + last, 'x spacing differs from dx=%g by %.3g after %s (x[0,:3]=%s)' % (dx, e, last, x[0, :3].tolist()))
             e = float(np.abs(np.diff(y, axis=1)).max())
-            ctx.require(e <= tol, 'spacing:y-not-constant:' + last, 'y varies along axis 1 by %.3g after %s' % (e, last))
+            ctx.within(e, tol, 'spacing:y-not-constant:' + last, 'y varies along axis 1 by %.3g after %s' % (e, last))
         if ny > 1:
             e = float(np.abs(np.diff(y, axis=0) - dx).max())
-            ctx.require(e <= tol, 'spacing:y:' + last, 'y spacing differs from dx=%g by %.3g after %s (y[:3,0]=%s)' % (dx, e, last, y[:3, 0].tolist()))
+            ctx.within(e, tol, 'spacing:y:' + last, 'y spacing differs from dx=%g by %.3g after %s (y[:3,0]=%s)' % (dx, e, last, y[:3, 0].tolist()))
             e = float(np.abs(np.diff(x, axis=0)).max())
-            ctx.require(e <= tol, 'spacing:x-not-constant:' + last, 'x varies along axis 0 by %.3g after %s' % (e, last))
+            ctx.within(e, tol, 'spacing:x-not-constant:' + last, 'x varies along axis 0 by %.3g after %s' % (e, last))
         rr = np.hypot(x, y)
         rs = max(float(rr.max()), dx)
         e = float(np.abs(r - rr).max())
-        ctx.require(e <= 1e-9 * rs, 'polar:r:' + last,
+        ctx.within(e, 1e-9 * rs, 'polar:r:' + last,
                     'r differs from hypot(x,y) by %.4g after %s (r.max=%.6g, hypot.max=%.6g, dx=%g, reads so far %s)' % (e, last, float(r.max()), float(rr.max()), dx, sorted(self.reads)))
         dt = np.abs((t - np.arctan2(y, x) + np.pi) % (2 * np.pi) - np.pi)
         dt = np.where(rr > 1e-9 * rs, dt, 0.0)      # angle of the origin sample is a convention
-        ctx.require(float(dt.max()) <= 1e-9, 'polar:t:' + last, 't differs from arctan2(y,x) by %.4g rad after %s' % (float(dt.max()), last))
+        ctx.within(float(dt.max()), 1e-9, 'polar:t:' + last, 't differs from arctan2(y,x) by %.4g rad after %s' % (float(dt.max()), last))
         # statistics
         # no state shared between objects: the untouched twin on the same grid still has the coordinates it had
         for nm in COORDS:
@@ -853,10 +853,10 @@ class IfgModel:
                 g = ctx.call(getattr, i, nm)
                 ctx.require(np.ndim(g) == 0 and np.isfinite(g), 'stat:%s:nonfinite' % nm, '%s = %r after %s with %d valid samples' % (nm, g, last, nv))
                 got[nm] = float(g)
-                ctx.require(abs(got[nm] - ref[nm]) <= rt * scale + floor, 'stat:' + nm,
+                ctx.within(abs(got[nm] - ref[nm]), rt * scale + floor, 'stat:' + nm,
                             '%s reports %.12g, the valid samples give %.12g (after %s, %d of %d valid)' % (nm, got[nm], ref[nm], last, nv, d.size))
             lhs, rhs = got['rms'] ** 2, got['std'] ** 2 + m * m
-            ctx.require(abs(lhs - rhs) <= rt * max(lhs, rhs) + floor * floor, 'stat:rms2=std2+mean2', 'rms^2=%.12g, std^2+mean^2=%.12g after %s' % (lhs, rhs, last))
+            ctx.within(abs(lhs - rhs), rt * max(lhs, rhs) + floor * floor, 'stat:rms2=std2+mean2', 'rms^2=%.12g, std^2+mean^2=%.12g after %s' % (lhs, rhs, last))
             slack = rt * scale + floor
             ctx.require(got['Sa'] <= got['std'] + slack and got['std'] <= got['pv'] + slack, 'stat:order',
                         'Sa=%.6g std=%.6g PV=%.6g violates Sa<=std<=PV after %s' % (got['Sa'], got['std'], got['pv'], last))
